@@ -24,6 +24,7 @@ func init() {
 		Rule{ID: "R11b", Doc: "walk direction, decision, threshold agreement", Floor: 8, AllVariants: true, Run: r11b},
 		Rule{ID: "R11c", Doc: "entry parsing", Floor: 8, AllVariants: true, Run: r11c},
 		Rule{ID: "R11d", Doc: "text form of labels", Floor: 5, AllVariants: true, Run: r11d},
+		Rule{ID: "R11f", Doc: "the label scanner accepts every label length the builders produce", Floor: 3, AllVariants: true, Run: r11f},
 		Rule{ID: "R11e", Doc: "AddLeaf overwrites unconditionally in both arms", Floor: 3, AllVariants: true, Run: r11e},
 		Rule{ID: "R10f", Doc: "lookup methods are read-only (shared with C10)", Floor: 5, Run: r10f},
 	)
